@@ -45,7 +45,7 @@ Section Print.
           pr (i :: p) a ++
           match rest with
           | [] => []
-          | _ => lay p (2 * i + 2) ++ [c_comma] ++ lay p (2 * i + 3) ++ sep_core (S i) rest
+          | _ => lay p (2 * i + 2)%nat ++ [c_comma] ++ lay p (2 * i + 3)%nat ++ sep_core (S i) rest
           end
       end.
   End Sep.
@@ -54,8 +54,8 @@ Section Print.
      there is no element) *)
   Definition inner {A} (pr : list nat -> A -> str) (p : list nat) (l : list A) : str :=
     match l with
-    | [] => lay p 0
-    | _ => lay p 0 ++ sep_core pr p 0 l ++ lay p 1
+    | [] => lay p 0%nat
+    | _ => lay p 0%nat ++ sep_core pr p 0%nat l ++ lay p 1%nat
     end.
 
   Fixpoint txt (p : list nat) (t : term) {struct t} : str :=
@@ -67,22 +67,22 @@ Section Print.
     | TLst l => [c_lbrk] ++ inner txt p l ++ [c_rbrk]
     | TDct d =>
         [c_lbrc] ++
-        inner (fun pe e => str_txt (fst (fst e)) (snd (fst e)) ++ lay pe 0 ++ [c_colon] ++ lay pe 1 ++
+        inner (fun pe e => str_txt (fst (fst e)) (snd (fst e)) ++ lay pe 0%nat ++ [c_colon] ++ lay pe 1%nat ++
                            txt (0%nat :: pe) (snd e)) p d ++
         [c_rbrc]
     end.
 
   (* blank name blank = blank expr blank *)
   Definition stmt_txt (i : nat) (s : stmt) : str :=
-    lay [i] 0 ++ fst s ++ lay [i] 1 ++ [c_eq] ++ lay [i] 2 ++ txt [0%nat; i] (snd s) ++ lay [i] 3.
+    lay [i] 0%nat ++ fst s ++ lay [i] 1%nat ++ [c_eq] ++ lay [i] 2%nat ++ txt [0%nat; i] (snd s) ++ lay [i] 3%nat.
 
   (* statements, each followed by a semicolon, then a final blank *)
   Fixpoint prog_txt_from (i : nat) (pg : prog) : str :=
     match pg with
-    | [] => lay [] 0
+    | [] => lay [] 0%nat
     | s :: rest => stmt_txt i s ++ [c_semi] ++ prog_txt_from (S i) rest
     end.
-  Definition print (pg : prog) : str := prog_txt_from 0 pg.
+  Definition print (pg : prog) : str := prog_txt_from 0%nat pg.
 End Print.
 
 Definition wf_layout (lay : layout) : Prop := forall p k, forallb is_space (lay p k) = true.
